@@ -103,7 +103,7 @@ def check_case(case, scratch, stats=None):
     out = []
     if stats is not None:
         stats.evaluations += 1
-    dc = v.kind == 'dontcare' or v.chain_broken or v.conflicts or v.enotdir
+    dc = v.kind == 'dontcare' or v.chain_broken or v.conflicts or v.enotdir or v.oserror
     # files below a directory that stands in place of a listed file are not descended into
     if dc:
         if stats is not None:
@@ -191,7 +191,7 @@ def run_shard(spec, tier, seed, scratch):
     alld = sorted(Tree({p: b'' for p in files}).all_dirs() | {''})
     vdirs = [d for d in alld]
     nfiles = len(files)
-    state_menu = STATES if nfiles <= 4 else ('ok', 'missing', 'altered', 'dir')
+    state_menu = STATES if (nfiles <= 4 and tier == 'thorough') else ('ok', 'missing', 'altered', 'dir')
     if s0 not in state_menu:
         return stats
     stray_sets = [()] + [(d,) for d in dirs] + [tuple(dirs)]
